@@ -53,6 +53,8 @@ type kase struct {
 	Desc       string
 	DeadlineMS int
 	PollMS     int
+	LongPoll   int
+	Seed       uint64
 }
 
 const deadlineMS = 700
@@ -66,6 +68,7 @@ func main() {
 	run.Assume("process liveness and bounded return are judged per case; a case still running D+10 s after it was logged is a hang", "coverage-guided fuzzing is not part of the quick tier")
 	run.Floor("handler_inputs", 100000)
 	run.Floor("hostile_polling_loops", 100)
+	run.Floor("long_poll_growth_steps_followed", 150)
 	run.Floor("parser_inputs", 50000)
 	run.Floor("hostile_cases", 600)
 	for _, f := range []string{"serverless", "sumdb", "pixel", "rekor", "tiles", "distributor"} {
@@ -453,6 +456,12 @@ func hostile(run *ev.Run, dir string) {
 			cases[i].Desc += "/polling"
 		}
 	}
+	// long process lifetimes made of VALID responses only: an honest, growing log followed for 90-150 growth steps
+	for _, kind := range []string{"sumdb", "tiles"} {
+		for k := 0; k < run.Pick(1, 4); k++ {
+			cases = append(cases, kase{ID: len(cases), Kind: kind, Skey: wkey.Skey(), DeadlineMS: 60000, LongPoll: 90 + 20*k, Seed: uint64(run.Seed)*100 + uint64(k), Desc: fmt.Sprintf("%s/longpoll/honest_growing_log/%d", kind, k)})
+		}
+	}
 	run.Extra("hostile_case_count", len(cases))
 	// run in child processes, batches interleaved over workers
 	workers := 16
@@ -520,7 +529,7 @@ func runBatch(run *ev.Run, dir string, w int, cases []kase) {
 				if cur != lastStart {
 					lastStart, lastChange = cur, time.Now()
 				}
-				if cur >= 0 && time.Since(lastChange) > time.Duration(deadlineMS)*time.Millisecond+10*time.Second {
+				if cur >= 0 && time.Since(lastChange) > time.Duration(byID[cur].DeadlineMS)*time.Millisecond+10*time.Second {
 					hung = cur
 					cancel() // kills the child
 					<-done
@@ -550,6 +559,15 @@ func runBatch(run *ev.Run, dir string, w int, cases []kase) {
 			if strings.HasPrefix(res, "harness:") {
 				run.Inconclusive("hostile case could not be set up: " + res)
 			}
+			if c.LongPoll > 0 {
+				var steps int
+				var ws, ls uint64
+				fmt.Sscanf(res, "returned longpoll steps=%d witness_size=%d log_size=%d", &steps, &ws, &ls)
+				run.Add("long_poll_growth_steps_followed", int64(steps))
+				if steps <= c.LongPoll || ws != ls {
+					run.Violate("long_polling_feeder_fell_behind;"+c.Kind, fmt.Sprintf("case %q: an honest log grew in %d steps to size %d; the polling feeder left the witness at size %d (%s)", c.Desc, steps, ls, ws, res[:min(len(res), 200)]), int64(c.ID), map[string]any{"result": res})
+				}
+			}
 			if c.PollMS > 0 {
 				run.Count("hostile_polling_loops")
 				if strings.Contains(res, "early=true") {
@@ -569,7 +587,7 @@ func runBatch(run *ev.Run, dir string, w int, cases []kase) {
 		if hung >= 0 {
 			c := byID[hung]
 			run.Count("evaluations")
-			run.Violate(hangKey(c), fmt.Sprintf("case %q: the cycle (context deadline %d ms) had not ended %d s after it started; the child was killed", c.Desc, deadlineMS, 10), int64(c.ID), map[string]any{"case": c.Desc, "first_body": string(c.First.Body[:min(len(c.First.Body), 300)])})
+			run.Violate(hangKey(c), fmt.Sprintf("case %q: the cycle (context deadline %d ms) had not ended %d s after it started; the child was killed", c.Desc, c.DeadlineMS, 10), int64(c.ID), map[string]any{"case": c.Desc, "first_body": string(c.First.Body[:min(len(c.First.Body), 300)])})
 		} else if exitErr != nil {
 			c, ok := byID[st]
 			if ok && !finished[st] {
